@@ -247,6 +247,53 @@ pub fn search(twin: &str, case: Option<&str>, seed: u64) -> Option<Value> {
             }}}
             None
         }
+        "c01.apint_err" => {
+            // the Err / Ok conditions that shim/apint.rs ASSUMES for apint (Kani cannot afford the error paths):
+            // width mismatch, shift amount >= width, extension to a narrower / truncation to a wider target, division by zero
+            for wa in [8u32, 16, 32, 64] { for wb in [8u32, 16, 32, 64] {
+                for _ in 0..400 {
+                    let (ua, ub) = (rng.interesting(wa), rng.interesting(wb));
+                    let (a, b) = (mk(wa, ua), mk(wb, ub));
+                    let same = wa == wb;
+                    let checks: [(&str, bool, bool); 12] = [
+                        ("into_checked_add", a.clone().into_checked_add(&b).is_ok(), same),
+                        ("into_checked_sub", a.clone().into_checked_sub(&b).is_ok(), same),
+                        ("into_checked_mul", a.clone().into_checked_mul(&b).is_ok(), same),
+                        ("into_checked_udiv", a.clone().into_checked_udiv(&b).is_ok(), same && ub != 0),
+                        ("into_checked_sdiv", a.clone().into_checked_sdiv(&b).is_ok(), same && ub != 0),
+                        ("into_checked_urem", a.clone().into_checked_urem(&b).is_ok(), same && ub != 0),
+                        ("into_checked_srem", a.clone().into_checked_srem(&b).is_ok(), same && ub != 0),
+                        ("checked_ult", a.checked_ult(&b).is_ok(), same),
+                        ("checked_sle", a.checked_sle(&b).is_ok(), same),
+                        ("into_zero_extend", a.clone().into_zero_extend(wb as usize).is_ok(), wb >= wa),
+                        ("into_sign_extend", a.clone().into_sign_extend(wb as usize).is_ok(), wb >= wa),
+                        ("into_truncate", a.clone().into_truncate(wb as usize).is_ok(), wb <= wa),
+                    ];
+                    for (name, got, want) in checks {
+                        if got != want {
+                            return Some(json!({"input": {"fn": "apint_err", "op": name, "wa": wa, "a": hex(ua), "wb": wb, "b": hex(ub)},
+                                "observed": if got { "Ok" } else { "Err" }, "expected": if want { "Ok" } else { "Err" }}));
+                        }
+                    }
+                    let n = (rng.next() % (wa as u64 + 8)) as usize;
+                    for (name, got) in [("into_checked_shl", a.clone().into_checked_shl(n).is_ok()), ("into_checked_lshr", a.clone().into_checked_lshr(n).is_ok()), ("into_checked_ashr", a.clone().into_checked_ashr(n).is_ok())] {
+                        if got != (n < wa as usize) {
+                            return Some(json!({"input": {"fn": "apint_err", "op": name, "wa": wa, "a": hex(ua), "n": n}, "observed": if got { "Ok" } else { "Err" }, "expected": if n < wa as usize { "Ok" } else { "Err" }}));
+                        }
+                    }
+                    // division results including the wrapping case MIN / -1
+                    if same && ub != 0 {
+                        let (sa, sb) = (sval(wa, ua), sval(wb, ub));
+                        let q = val(&a.clone().into_checked_sdiv(&b).unwrap()).1;
+                        let r = val(&a.clone().into_checked_srem(&b).unwrap()).1;
+                        if q != trunc(wa, sa.wrapping_div(sb)) || r != trunc(wa, sa.wrapping_rem(sb)) || val(&a.clone().into_checked_udiv(&b).unwrap()).1 != ua / ub || val(&a.clone().into_checked_urem(&b).unwrap()).1 != ua % ub {
+                            return Some(json!({"input": {"fn": "apint_err", "op": "div/rem value", "wa": wa, "a": hex(ua), "wb": wb, "b": hex(ub)}, "observed": hex(q), "expected": hex(trunc(wa, sa.wrapping_div(sb)))}));
+                        }
+                    }
+                }
+            }}
+            None
+        }
         "c01.add_ovf" | "c01.sub_ovf" | "c01.mul_flag" => {
             for w in [8u32, 16, 32, 64] {
                 let n: u64 = if w == 8 { 65536 } else { 40000 };
